@@ -431,7 +431,11 @@ def awkward(rng, lo, hi, allow_int=True):
     return rng.uniform(lo, hi)
 
 
-def polygon(rng, n=None):
+def polygon(rng, n=None, closed=False):
+    """A star-shaped outline; `closed`: given as a closed ring (first vertex repeated at the end, the GIS export form)."""
+    if closed:
+        pts = polygon(rng, n)
+        return pts + [list(pts[0])]
     n = n or rng.randint(3, 7)
     cx, cy, r = rng.uniform(30, 60), rng.uniform(30, 60), rng.uniform(10, 30)
     angs = sorted(rng.uniform(0, 2 * math.pi) for _ in range(n))
@@ -443,7 +447,7 @@ def polygon(rng, n=None):
     return pts
 
 
-def gen_config(rng, geom=None, pipe=None, fluid=None, cap=None, cont=None, loads=None, flow=None, rotations=None):
+def gen_config(rng, geom=None, pipe=None, fluid=None, cap=None, cont=None, loads=None, flow=None, rotations=None, polyshape=None):
     """A configuration in the documented domain, as the list of API calls [(setter, kwargs)] plus a
     descriptor.  `loads` is a list of 8760 numbers or a Rep."""
     geom = geom or rng.choice(GEOMS)
@@ -495,9 +499,12 @@ def gen_config(rng, geom=None, pipe=None, fluid=None, cap=None, cont=None, loads
         calls.append((setter, {"length": awkward(rng, 20, hi), "width": awkward(rng, 20, hi), "b_min": bmin,
                                "b_max_x": bmin + awkward(rng, 0, 10), "b_max_y": bmin + awkward(rng, 0, 10)}))
     elif geom == "BIRECTANGLECONSTRAINED":
-        shape = rng.randrange(4)
-        pb = polygon(rng)
-        ng = [polygon(rng, 3) for _ in range(rng.randint(0, 2))]
+        # outline forms: flat or nested property boundary, none / one flat / several no-go zones, each open or a closed ring
+        shape = rng.randrange(4) if polyshape is None else polyshape
+        ring_p = rng.random() < 0.4 if polyshape is None else polyshape in (1, 2)
+        ring_n = rng.random() < 0.4 if polyshape is None else polyshape in (1, 2)
+        pb = polygon(rng, closed=ring_p)
+        ng = [polygon(rng, rng.choice([3, 4, 5]), closed=ring_n) for _ in range(rng.randint(0, 2) if polyshape is None else (2 if polyshape == 1 else (1 if polyshape in (0, 2) else 0)))]
         if shape == 1:
             pb = [pb]                       # already a list of polygons
         if shape == 2 and ng:
@@ -512,7 +519,8 @@ def gen_config(rng, geom=None, pipe=None, fluid=None, cap=None, cont=None, loads
         calls.append(("set_geometry_constraints_rowwise", {
             "perimeter_spacing_ratio": None if geom == "ROWWISE_NORATIO" else awkward(rng, 0.2, 1.2), "max_spacing": bmin + awkward(rng, 0, 10),
             "min_spacing": bmin, "spacing_step": awkward(rng, 0.05, 1), "max_rotation": hi, "min_rotation": lo, "rotate_step": awkward(rng, 0.5, 15),
-            "property_boundary": polygon(rng), "no_go_boundaries": [polygon(rng, 3) for _ in range(rng.randint(0, 2))]}))
+            "property_boundary": polygon(rng, closed=rng.random() < 0.3),
+            "no_go_boundaries": [polygon(rng, 3, closed=rng.random() < 0.3) for _ in range(rng.randint(0, 2))]}))
     calls.append(("set_design", {"flow_rate": awkward(rng, 0.05, 2.0), "flow_type_str": recase(rng, flow or rng.choice(["BOREHOLE", "SYSTEM"]))}))
     desc = {"geom": geom, "pipe": pipe, "fluid": fluid, "cap": cap, "cont": cont, "flow": calls[-1][1]["flow_type_str"].upper()}
     return calls, desc
